@@ -119,6 +119,11 @@ def _plans(ftype, cid, tier):
         if canonical and len(sl) >= 2:
             plans.append((sl, len(sl) - 1, ()))
             plans.append((sl, 0, ()))
+        if canonical and len(sl) <= 2:
+            # a source disabled and enabled again contributes exactly as if it had never been disabled (with a cost read in between)
+            plans.append((sl, ("cycle", 0), ()))
+            if len(sl) == 2:
+                plans.append((sl, ("cycle", 1), ()))
     if cid == "chi2":
         plans.append(((), None, ()))  # documented fallback: chi2 without any source is the plain sum of squares
         plans.append(((), None, ("simple",)))
@@ -148,7 +153,9 @@ def run_one(res, ftype, model, cid, v, plan, collect=None):
     sl, dis, cons = plan[:3]
     preread = len(plan) > 3 and plan[3]
     ops = [("add", k, "e%d" % i) for i, k in enumerate(sl)]
-    if dis is not None:
+    if isinstance(dis, tuple):
+        ops += [("dis", "e%d" % dis[1]), ("read", "cost_function_value"), ("en", "e%d" % dis[1])]
+    elif dis is not None:
         ops.append(("dis", "e%d" % dis))
     if preread:
         # the cost is read once before the constraints are declared: no declared constraint may be ignored afterwards
